@@ -119,10 +119,13 @@ func (fx *FnCtx) buildVCs() ([]*VC, error) {
 			if a.cover {
 				continue
 			}
-			if it.cover && a.block != -1 {
+			if it.cover && !it.coverAll && a.block != -1 {
 				continue
 			}
-			if !(a.block == -1 || a.block == it.block || (it.block >= 0 && fx.anc[it.block][a.block])) {
+			if it.coverAll && a.kind == itOblig {
+				continue // only what is assumed, not what is (separately) being proved
+			}
+			if !it.coverAll && !(a.block == -1 || a.block == it.block || (it.block >= 0 && fx.anc[it.block][a.block])) {
 				continue
 			}
 			// postconditions at the same return are proved independently of each other
@@ -345,8 +348,13 @@ func dischargeCover(vc *VC, dir string) {
 	_ = os.WriteFile(file, []byte(vc.Text), 0o644)
 	start := time.Now()
 	r, o := runSolver(context.Background(), solvers[0], file, 2)
-	vc.Ms = time.Since(start).Milliseconds()
 	vc.Backend = "z3"
+	if r != "unsat" && strings.HasPrefix(vc.Name, "cover.exit:") && len(solvers) > 1 {
+		// the exit cover carries the whole body: give a second solver a chance to find a contradiction
+		r, o = runSolver(context.Background(), solvers[1], file, 2)
+		vc.Backend = solvers[1].name
+	}
+	vc.Ms = time.Since(start).Milliseconds()
 	vc.Output = o
 	if r == "unsat" {
 		vc.Result = "vacuous"
